@@ -56,7 +56,13 @@ def apply_unified_diff(files, diff_text):
     cur = None
     hunks = []
     for line in diff_text.splitlines():
-        if line.startswith('+++ '):
+        if line.startswith('diff --git ') or (
+                line.startswith('--- ') and (cur is None or (
+                    hunks and _hunk_complete(hunks[-1])))):
+            # header of the next file: its '--- a/...' line is not a removal
+            cur = None
+            continue
+        if line.startswith('+++ ') and cur is None:
             p = line[4:].strip()
             if p.startswith('b/'):
                 p = p[2:]
@@ -65,7 +71,9 @@ def apply_unified_diff(files, diff_text):
             out[cur] = hunks
         elif line.startswith('@@') and cur is not None:
             m = re.match(r'@@ -(\d+)(?:,(\d+))? \+(\d+)(?:,(\d+))? @@', line)
-            hunks.append({'start': int(m.group(1)), 'lines': []})
+            hunks.append({'start': int(m.group(1)), 'lines': [],
+                          'n_old': int(m.group(2) or 1),
+                          'n_new': int(m.group(4) or 1)})
         elif cur is not None and hunks and (
                 line.startswith((' ', '+', '-')) or line == ''):
             if line.startswith('\\'):
@@ -99,6 +107,12 @@ def apply_unified_diff(files, diff_text):
             offset += len(new) - len(old)
         res[path] = '\n'.join(lines)
     return res
+
+
+def _hunk_complete(h):
+    n_old = sum(1 for x in h['lines'] if x[0] in ' -')
+    n_new = sum(1 for x in h['lines'] if x[0] in ' +')
+    return n_old >= h['n_old'] and n_new >= h['n_new']
 
 
 def _read(repo, path):
